@@ -63,10 +63,19 @@ def go_env():
 def build_harness(run, race=False):
     """Builds the conformance harness against /repo's current working tree, hooks on."""
     out = run.path("verifharness-race" if race else "verifharness")
-    shutil.copy(os.path.join(REPO, "go.sum"), os.path.join(HARNESS, "go.sum"))
+    src = HARNESS
+    if REPO != "/repo":
+        # VERIF_REPO (used by tools/seedtest.py only): build against a scratch checkout instead of /repo,
+        # from a private copy of the harness whose replace directive points there
+        src = run.path("harness-src")
+        if not os.path.exists(src):
+            shutil.copytree(HARNESS, src, ignore=shutil.ignore_patterns("verifharness*"))
+            gm = open(os.path.join(src, "go.mod")).read().replace("=> /repo", "=> " + REPO)
+            open(os.path.join(src, "go.mod"), "w").write(gm)
+    shutil.copy(os.path.join(REPO, "go.sum"), os.path.join(src, "go.sum"))
     cmd = ["go", "build", "-tags", "verif"] + (["-race"] if race else []) + ["-o", out, "."]
     t = time.time()
-    p = subprocess.run(cmd, cwd=HARNESS, env=go_env(), capture_output=True, text=True)
+    p = subprocess.run(cmd, cwd=src, env=go_env(), capture_output=True, text=True)
     if p.returncode != 0:
         raise Infra("harness build failed (the tree must compile):\n" + p.stdout + p.stderr)
     log("harness built in %.1fs%s" % (time.time() - t, " (race)" if race else ""))
